@@ -22,7 +22,7 @@ MANIFEST = {
                 "bytes; empty result above U+10FFFF; fromString returns the payload bits of EVERY structurally complete sequence and toString(fromString(s)) = s "
                 "exactly for the shortest forms up to U+10FFFF; isValid = the structural well-formedness predicate for EVERY byte string, accepts every "
                 "RFC 3629 string (strictly more: the ABNF is proved equal to structural + shortest + non-surrogate); fromString/isValid never read outside "
-                "the range they are given and length() never leaves the 5-entry offset table; fromHex = upper-case hex text of every byte string, "
+                "the range they are given and length() never leaves the 5-entry offset table; fromHex = upper-case hex text of every byte string, injective and a homomorphism for concatenation (hex_injective_and_concatenates), "
                 "inverted by the specification decoder; fromBase64 = Spec.b64Decode for EVERY input, inverts the RFC 4648 encoding of every byte string, "
                 "reads its table below its size and writes inside the reserved buffer (false for the unpatched signed guard: defect D26); "
                 "numeric clause: the eight to* overloads (member + static) on EVERY text - numeral of any magnitude (saturation / ULLONG_MAX / negation in the "
